@@ -1335,6 +1335,23 @@ pub fn run(out: &mut Out, tier: &str, seed: u64, prop: &str) {
                         } }
                     } } }
                 }
+                // one variable with SEVERAL gaps of different kinds in one merged edge: excluded points (`!=`, `not in`) next to a gap
+                // that is an interval (open, half-open, closed), below it, above it and on both sides
+                for (is_ver, k) in [(true, 0usize), (true, 1), (false, 1), (false, 12)] {
+                    let (p0, a, b, p1, p2) = if is_ver { ("3.6", "3.8", "3.10", "3.12", "3.7") } else { ("a", "m", "p", "t", "c") };
+                    let at = |op: usize, v: &str| if is_ver { Term::V(k, op, v.to_string()) } else { Term::S(k, [0usize, 1, 4, 5, 2, 3][op], v.to_string()) };   // eq ne lt le gt ge
+                    for (lo, hi) in [(2usize, 4usize), (3, 4), (2, 5), (3, 5)] {
+                        let gap = Term::or(at(lo, a), at(hi, b));
+                        for pts in [vec![p0], vec![p1], vec![p0, p1], vec![p2], vec![p0, p2, p1]] {
+                            let mut t = gap.clone();
+                            for p in &pts { t = Term::and(at(1, p), t); }
+                            shapes.push(t.clone());
+                            shapes.push(Term::and(t.clone(), Term::X(false, "dev".into())));
+                            shapes.push(Term::or(t.clone(), Term::S(if k == 12 { 1 } else { 12 }, 0, "win32".into())));
+                            shapes.push(Term::not(t));
+                        }
+                    }
+                }
                 // (A and (not X or B)) or (C and not A and X): A a substring test, B a comparison on the SAME key, X an extra, C a test on an
                 // earlier variable — a clause that loses its leading term before a later clause is compared with it (the positions of the
                 // shared terms then differ between the two clauses)
